@@ -80,7 +80,12 @@ impl FromStr for Type {
     type Err = &'static str;
 
     fn from_str(text: &str) -> Result<Self, Self::Err> {
-        match Caseless(text) {
+        // NOTE: a pattern like `Caseless("IN")` destructures the
+        // wrapper and compares the inner string exactly (the
+        // case-insensitive `PartialEq` impl is not consulted), so we
+        // normalize the case of the text before matching.
+        let upper = text.to_ascii_uppercase();
+        match Caseless(&upper) {
             Caseless("A") => Ok(Self::A),
             Caseless("NS") => Ok(Self::NS),
             Caseless("MD") => Ok(Self::MD),
